@@ -1,9 +1,9 @@
 """C02 -- two-particle Green's function equals its definition on both evaluation paths."""
 import pipeline
 
-LEAN_MODULES = ['PomerolModel.Properties.C02']
+LEAN_MODULES = ['PomerolModel.Properties.C02', 'PomerolModel.Properties.C02Terms']
 GENERATED = ['chi4']
-THEOREMS = ["Pomerol.Properties.C02." + t for t in ['multiterm_is_simplex_integral', 'ordered_simplex', 'chi_equals_definition', 'extracted_multiterm', 'permutation_table', 'exchange_first_pair', 'sparse_enumeration_is_full_sum', 'sparse_enumeration_visits_stored_quadruples_once', 'sparse_enumeration_is_ordered_lehmann', 'world_stripes_complete', 'selected_stripes_compute_chi', 'term_order_not_strict_weak', 'term_order_not_strict_weak_first_pole']]
+THEOREMS = ["Pomerol.Properties.C02." + t for t in ['multiterm_is_simplex_integral', 'ordered_simplex', 'chi_equals_definition', 'extracted_multiterm', 'permutation_table', 'exchange_first_pair', 'sparse_enumeration_is_full_sum', 'sparse_enumeration_visits_stored_quadruples_once', 'sparse_enumeration_is_ordered_lehmann', 'world_stripes_complete', 'selected_stripes_compute_chi', 'term_order_not_strict_weak', 'term_order_not_strict_weak_first_pole']] + ["Pomerol.Properties.C02Terms." + t for t in ['keyLess_irrefl', 'keyLess_irrefl_nonpos', 'container_budget', 'nonresonant_terms_budget', 'resonant_terms_budget', 'exact_merge_preserves_value']]
 RULE = 'a case = random model with <=3 (thorough <=4) modes, random and resonant quadruples/triples (n1+n2=-1, n2=n3, n1=n3), purge on/off; chi from the terms, the returned table and evaluation after the table are compared with the signed six-ordering full-space sum of the multi-term; ambiguous resonance decisions are counted and skipped; non-trivial = distinct case with a non-vanishing chi'
 TRUSTED = ["harness/pipe.cpp drives the real classes along the documented workflow; case-file protocol with hex doubles",
            "numeric oracle (lean/Driver/Numeric*.lean): IEEE double arithmetic of compiled Lean, full-Fock-space sums",
@@ -11,7 +11,7 @@ TRUSTED = ["harness/pipe.cpp drives the real classes along the documented workfl
 ASSUMPTIONS = ["exact real/complex arithmetic in the theorems; tolerance tests idealised unless stated",
                "numerical comparison tolerance: proven budget + 1e-9 relative rounding slack"]
 LEVEL_TEXT = 'Proof: simplex_closed_form (the nested time-ordered integral of one world line equals the Hafermann multi-term in all four resonance classes) -> ordered_lehmann -> chi_lehmann (the signed sum over the six orderings of the definition equals the six-ordering Lehmann sum for every spectrum and every fermionic triple), composed with chi4_multiterm/chi4_perms (coefficients, term evaluation, frequency permutation {z1,z2,-z3}[perm] and sign table extracted from the source). Tie: differential oracle on both evaluation paths.'
-LEVEL_NOTE = 'Trusted: as C01; time ordering formalised as the signed sum over the six ordered simplices; term merging with pole averaging and the 1e-8 resonance window are idealised (exact) in the theorems; the world-line enumeration of TwoParticleGFPart::compute (sparse rows/columns, chaseIndices, coeff look-ups) is modelled (Model/Chi4Part.lean, guard flags extracted) and PROVED to visit every stored quadruple exactly once, hence to sum to the ordered Lehmann sum block by block; that model is tied to the code by the extracted flags and the numeric oracle.'
+LEVEL_NOTE = 'Trusted: as C01; time ordering formalised as the signed sum over the six ordered simplices; term merging with pole averaging and the 1e-8 resonance window are idealised (exact) in the theorems; the world-line enumeration of TwoParticleGFPart::compute (sparse rows/columns, chaseIndices, coeff look-ups) is modelled (Model/Chi4Part.lean, guard flags extracted) and PROVED to visit every stored quadruple exactly once, hence to sum to the ordered Lehmann sum block by block; that model is tied to the code by the extracted flags and the numeric oracle. The two term containers (TermList with the extracted Compare) are proved to conserve coefficients and to drop only terms below Tolerance/n (Properties/C02Terms.lean); the two IsNegligible predicates are hand-written there.'
 TECHNIQUE = 'Lean 4/Mathlib proof (nested FTC + algebra) over extracted multi-term formulas + differential oracle'
 DESIGN_REF = "DESIGN.md section 6, C02"
 
